@@ -1,5 +1,120 @@
-"""UB — upper-bound inference (filled in later in the build order)."""
+"""P3 / X3 — every value written into the parameter header fits its width; narrowing conversions cannot fail."""
+import re
+from .. import flow
+from ..ub import UB, INF
+from ..facts import callee_def
+from ..common import strip_generics
+
+PP = "preflate_rs::preflate_parameter_estimator::PreflateParameters::"
+_cache = {}
 
 
-def p3(ctx, rep):
-    return
+def engine(F):
+    k = id(F)
+    if k not in _cache:
+        _cache.clear()
+        _cache[k] = UB(F)
+    return _cache[k]
+
+
+def _field_name(desc):
+    m = re.findall(r"\.([A-Za-z_0-9]+)", desc.replace(" as ", "."))
+    return ".".join(m[-2:]) if m else desc[:40]
+
+
+def p3(ctx, rep, rule="P3"):
+    F = ctx.lib
+    U = engine(F)
+    b = F.body(PP + "write")
+    n_ev = n_tf = 0
+    for bb, t in b.calls():
+        n = strip_generics(callee_def(t))
+        if t["callee"].get("trait") == "preflate_rs::statistical_codec::PredictionEncoder" and n.endswith("::encode_value"):
+            n_ev += 1
+            w = flow.const_eval(b, t["args"][2])
+            v = U.operand(b, t["args"][1], bb)
+            d = flow.describe(b, t["args"][1])
+            name = _field_name(d) if "arg<" in d else d
+            if w is None:
+                rep.add(rule, "fits-width:%s" % name, False, b.where(bb), "UNRECOGNISED-IDIOM: width is not a constant")
+                continue
+            ok = v != INF and v < (1 << w)
+            rep.add(rule, "fits-width:%s/%d" % (name, w), ok, b.where(bb),
+                    "upper bound of the written value is %s, field holds < %d%s" % (v, 1 << w, "" if ok else " — a larger value is silently truncated; bound comes from: %s" % _sites(U, b, t["args"][1])))
+        elif n.endswith("TryFrom::try_from"):
+            dty = b.local_ty(t["dest"]["l"])
+            m = re.search(r"Result<(u8|u16|u32)", dty)
+            if not m:
+                continue
+            n_tf += 1
+            lim = {"u8": 255, "u16": 65535, "u32": 2 ** 32 - 1}[m.group(1)]
+            v = U.operand(b, t["args"][0], bb)
+            d = flow.describe(b, t["args"][0])
+            ok = v != INF and v <= lim
+            rep.add(rule, "try_from-cannot-fail:%s" % _field_name(d), ok, b.where(bb),
+                    "upper bound %s must be <= %d (%s::try_from(..).unwrap())%s" % (v, lim, m.group(1), "" if ok else "; bound comes from: %s" % _sites(U, b, t["args"][0])))
+    rep.floor(rule, "encode_value-sites", n_ev, 20)
+    rep.floor(rule, "try_from-sites", n_tf, 4)
+
+
+def _first_field_place(b, op, depth=0):
+    from ..facts import op_place
+    p = op_place(op)
+    if p is None or depth > 8:
+        return None
+    if any(isinstance(e, dict) and "f" in e and "n" in e for e in p["p"]):
+        return p
+    d = b.single_def(p["l"])
+    if d and d[2] == "assign" and d[3]["k"] in ("use", "cast"):
+        return _first_field_place(b, d[3]["op"], depth + 1)
+    if d and d[2] == "call" and d[3]["args"]:
+        return _first_field_place(b, d[3]["args"][0], depth + 1)
+    return None
+
+
+def _sites(U, b, op):
+    """Where the offending bound comes from: follow field -> construction site -> field ... (largest first)."""
+    out = []
+    p = _first_field_place(b, op)
+    if p is None:
+        return out
+    named = [e for e in p["p"] if isinstance(e, dict) and "f" in e and "n" in e]
+    key = (U.place_adt(b, p), named[-1]["n"])
+    seen = set()
+    while key and key not in seen and len(out) < 5:
+        seen.add(key)
+        tr = U.trace.get(key) or []
+        if not tr:
+            break
+        v, fn, where = tr[0]
+        out.append("%s.%s<=%s set at %s (%s)" % ((key[0] or "?").split("::")[-1], key[1], v, where, fn.split("::")[-1]))
+        # continue through the field that fed this construction site, if it is again a field
+        nxt = None
+        for k2, tr2 in U.trace.items():
+            if k2 not in seen and tr2 and tr2[0][0] == v and k2[1] == key[1] and k2 != key:
+                nxt = k2
+                break
+        key = nxt
+    return out
+
+
+def update_length_bound(F, parent):
+    """ub(length) <= MAX_UPDATE_HASH_BATCH for the hash-chain update_hash implementations."""
+    U = engine(F)
+    try:
+        lim = F.const_int("preflate_rs::hash_chain::MAX_UPDATE_HASH_BATCH")
+    except Exception:
+        return False, "MAX_UPDATE_HASH_BATCH not found"
+    worst = 0
+    detail = []
+    for name, b in F.bodies.items():
+        if name.endswith("::update_hash") and ("hash_chain::HashChain>" in name or "hash_chain_holder::HashChainHolder>" in name) and not name.startswith("<()"):
+            # the `length` parameter: named local
+            ls = [l for l in range(1, b.argc + 1) if b.local_name(l) == "length"]
+            if not ls:
+                return False, "no `length` parameter in " + name
+            v = U.param(b, ls[0])
+            detail.append("%s<=%s" % (name.split(" as ")[0].split("::")[-1].strip("<>"), v))
+            worst = max(worst, v)
+    ok = bool(detail) and worst <= lim
+    return ok, "bounds %s; limit %d" % (detail, lim)
